@@ -29,11 +29,19 @@
 
 #include "snoopy.h"
 
+#include <errno.h>
 #include <stdio.h>
 #include <stdlib.h>
 #include <unistd.h>
 #include <sys/types.h>
 #include <grp.h>
+
+
+
+/*
+ * Lookup buffer is doubled up to this size when an entry does not fit
+ */
+#define SNOOPY_DS_GROUP_LOOKUP_BUF_SIZE_MAX 1048576
 
 
 
@@ -57,6 +65,7 @@ int snoopy_datasource_group (char * const resultBuf, size_t resultBufSize, __att
     char          *buffgr_gid     = NULL;
     long           buffgrsize_gid = 0;
     int            messageLength  = 0;
+    int            lookupStatus   = 0;
 
     /* Allocate memory */
     buffgrsize_gid = sysconf(_SC_GETGR_R_SIZE_MAX);
@@ -68,8 +77,20 @@ int snoopy_datasource_group (char * const resultBuf, size_t resultBufSize, __att
         return snprintf(resultBuf, resultBufSize, "ERROR(malloc)");
     }
 
-    /* Try to get data */
-    if (0 != getgrgid_r(getgid(), &gr, buffgr_gid, buffgrsize_gid, &gr_gid)) {
+    /* Try to get data - an entry that does not fit (a group with many members) is retried with a larger buffer */
+    while (ERANGE == (lookupStatus = getgrgid_r(getgid(), &gr, buffgr_gid, buffgrsize_gid, &gr_gid))) {
+        char *biggerBuf;
+        if (buffgrsize_gid >= SNOOPY_DS_GROUP_LOOKUP_BUF_SIZE_MAX) {
+            break;
+        }
+        buffgrsize_gid *= 2;
+        biggerBuf = realloc(buffgr_gid, buffgrsize_gid);
+        if (NULL == biggerBuf) {
+            break;
+        }
+        buffgr_gid = biggerBuf;
+    }
+    if (0 != lookupStatus) {
         messageLength  = snprintf(resultBuf, resultBufSize, "ERROR(getgrgid_r)");
     } else {
         if (NULL == gr_gid) {
